@@ -37,11 +37,16 @@ pub struct SplineJob {
     /// (data that "almost closes"). build() has to reject it (C10); should it be accepted, the
     /// result still has to be a C2 piecewise cubic through the given points (C02).
     pub nearly_closed: bool,
+    /// lanes of wildly different magnitude in one data set: lane j is multiplied by 2^900, 2^-900 or 1
+    /// (j mod 3). Only the per-lane structural statements are judged.
+    pub lane_mix: bool,
 }
 
 impl SplineJob {
     pub fn key(&self) -> String {
-        if self.nearly_closed {
+        if self.lane_mix {
+            format!("{}:{}:lanes-x-2^(900,-900,0)", self.axis.name, self.spec.name())
+        } else if self.nearly_closed {
             format!("{}:{}:nearly-closed", self.axis.name, self.spec.name())
         } else if self.xscale == 1.0 {
             format!("{}:{}", self.axis.name, self.spec.name())
@@ -175,9 +180,23 @@ pub fn run_spline_job_t<T: Fl>(job: &SplineJob, want: Want, out: &mut JobOut) {
             }
             l
         })
-        .filter(|l| vec_exact::<T>(&l.y).is_some())
+        .enumerate()
+        .map(|(j, mut l)| {
+            if job.lane_mix {
+                let e = [900, -900, 0][j % 3];
+                for v in l.y.iter_mut() {
+                    *v *= 2.0f64.powi(e);
+                }
+                l.name = format!("{}*2^{e}", l.name);
+            }
+            l
+        })
+        .filter(|l| vec_exact::<T>(&l.y).is_some() && l.y.iter().all(|v| v.is_finite()))
         .collect();
     if job.nearly_closed && (T::NAME == "f32" || !periodic) {
+        return;
+    }
+    if job.lane_mix && T::NAME == "f32" {
         return;
     }
     let lt: Vec<Vec<T>> = lanes
